@@ -8,7 +8,7 @@ from props import mmulti
 from common import xr, xvec, from_xr, from_xvec, num_close
 
 ID = "C06"
-TARGETS = ["Proofs.C06", "Proofs.GenEq.Cont", "Proofs.GenEq.Abcd"]
+TARGETS = ["Proofs.C06", "Proofs.GenEq.Cont", "Proofs.GenEq.Abcd", "Proofs.C06FInterval"]
 GEN_PREFIXES = ["cont.", "abcd."]
 NAMES = ["a", "b", "c", "d", "n", "ets", "fcstrate", "dscore", "threat", "pc", "edi", "sedi", "eds", "seds",
          "biasfreq", "hss", "baserate", "or", "lor", "yulesq", "kss", "hit", "miss", "fa", "far"]
@@ -18,6 +18,7 @@ THEOREMS = {
         "C06_formula", "C06_never_inf", "C06_perfect", "C06_declared_perfect"]],
     "Proofs.GenEq.Cont": ["VerifModel.GenEq.Cont.%s_eq" % n for n in NAMES],
     "Proofs.GenEq.Abcd": ["VerifModel.GenEq.Abcd." + t for t in ["sum_zipWith", "abcd_eq", "abcd_default_eq"]],
+    "Proofs.C06FInterval": ["VerifModel.C06.C06_forecast_interval", "VerifModel.C06.C06_forecast_interval_score"],
 }
 TRUSTED_BASE = [
     "Lean 4.33 kernel; axioms propext, Classical.choice, Quot.sound only",
@@ -62,6 +63,20 @@ LEVEL_TEXT += (" _compute_abcd is machine-translated from /repo on every run as 
                "counting model for all vectors and intervals (abcd_eq, abcd_default_eq).")
 
 
+# ---- the optional forecast interval of compute_from_obs_fcst in C06's own streams (cont.pairs / cont.abcd)
+TRUSTED_BASE = TRUSTED_BASE + [
+    "Model/ContingencyF.lean: `if f_interval is None: f_interval = interval` (fcstInterval) for compute_from_obs_fcst, tied "
+    "by the cont.pairs / cont.abcd ops that carry a forecast event and, for _compute_abcd itself, by the translation "
+    "(C06_forecast_interval: Gen.Abcd.abcd = cells of abcdF)"]
+RULE += ("; one cont.pairs / cont.abcd group in six carries a forecast interval of its own (f_interval of "
+         "compute_from_obs_fcst / _compute_abcd): the caller's pattern of output.py (Roc, Performance: same bin type, forecast "
+         "threshold at a forecast value / the observation threshold / 0) or an unrelated event; the oracle counts with "
+         "the two events from the documentation, the score is checked against the textbook formula of that table")
+LEVEL_TEXT += (" With a forecast interval the forecasts' event is membership in it and the observations' event is unchanged; "
+               "without one both use `interval`; the marginals a+b / a+c count forecast / observed events among the valid "
+               "pairs and the four counts sum to the number of valid pairs in either case (C06_forecast_interval).")
+
+
 def tables(total_max):
     for n in range(0, total_max + 1):
         for a in range(n + 1):
@@ -101,9 +116,24 @@ def gen_ops(tier, rng):
                     if rng3.random() < 0.3:
                         e = rng3.choice([t, u])
                         v[k] = e * (1 + rng3.choice([-1, 1]) * 2.0 ** -20) if e != 0 else rng3.choice([-1, 1]) * 2.0 ** -30
+        # about one op in six with a forecast interval of its own (compute_from_obs_fcst(obs, fcst, interval, f_interval)):
+        # as verif's callers build it (output.py Roc / Performance: the SAME bin type, forecast thresholds at values of the
+        # forecasts, the observation threshold, 0) or any other event
+        rngf = random.Random(rng3.random())
+        fsuffix = ""
+        if rngf.random() < 0.16:
+            if rngf.random() < 0.6:
+                pool = [v for v in fcst if not math.isnan(v)] + [t, 0.0]
+                ft = rngf.choice(pool)
+                fb, fu = b, ft + (u - t)
+            else:
+                fb = rngf.choice(BINS)
+                ft = rngf.choice([-1.0, 0.0, 0.5, 1.0, 1.25, 2.0, 3.0])
+                fu = ft + rngf.choice([0.0, 0.5, 1.0, 2.0])
+            fsuffix = " %s %s %s" % (fb, xr(ft), xr(fu))
         for name in rng.sample(NAMES, 6):
-            yield "cont.pairs", "contscore %s %s %s %s %s %s" % (name, b, xr(t), xr(u), xvec(obs), xvec(fcst))
-        yield "cont.abcd", "abcd %s %s %s %s %s" % (b, xr(t), xr(u), xvec(obs), xvec(fcst))
+            yield "cont.pairs", "contscore %s %s %s %s %s %s%s" % (name, b, xr(t), xr(u), xvec(obs), xvec(fcst), fsuffix)
+        yield "cont.abcd", "abcd %s %s %s %s %s%s" % (b, xr(t), xr(u), xvec(obs), xvec(fcst), fsuffix)
         # the machine translation of _compute_abcd (Gen/Abcd.lean) executed against the real method, with the forecast
         # interval defaulted (-) or different from the observation interval (so that b and c are distinguishable)
         if rng3.random() < 0.4:
@@ -164,7 +194,10 @@ def impl(op):
             s = np.zeros(1)
             o_, f_ = np.array(from_xvec(a[5]), float), np.array(from_xvec(a[6]), float)
             guard = common.Unchanged(o_, f_)
-            s[0] = m.compute_from_obs_fcst(o_, f_, iv)
+            if len(a) > 7:
+                s[0] = m.compute_from_obs_fcst(o_, f_, iv, _interval(a[7], from_xr(a[8]), from_xr(a[9])))
+            else:
+                s[0] = m.compute_from_obs_fcst(o_, f_, iv)
             return guard.tag(xr(s[0]))
         if a[0] == "contseq":
             import verif.axis
@@ -194,7 +227,10 @@ def impl(op):
             else:
                 o_, f_ = np.array(from_xvec(a[4]), float), np.array(from_xvec(a[5]), float)
                 guard = common.Unchanged(o_, f_)
-                r = m._compute_abcd(o_, f_, iv)
+                if len(a) > 6:
+                    r = m._compute_abcd(o_, f_, iv, _interval(a[6], from_xr(a[7]), from_xr(a[8])))
+                else:
+                    r = m._compute_abcd(o_, f_, iv)
             if any(np.ma.is_masked(x) or (isinstance(x, float) and math.isnan(x)) for x in r):
                 return guard.tag("none")
             return guard.tag(" ".join(str(int(x)) for x in r))
@@ -225,6 +261,11 @@ def _doc_table(b, t, u, obs, fcst, fevent=None):
     return a, bb, c, d
 
 
+def _fev(a, k):
+    """the forecasts' own event of a contscore (k=7) / abcd (k=6) op, if the op has one"""
+    return (a[k], from_xr(a[k + 1]), from_xr(a[k + 2])) if len(a) > k else None
+
+
 def spec_op(op):
     a = op.split(" ")
     if a[0] == "gencont":
@@ -232,7 +273,7 @@ def spec_op(op):
             return None
         return "speccont %s %s %s %s %s" % tuple(a[1:6])
     if a[0] == "contscore":
-        t = _doc_table(a[2], from_xr(a[3]), from_xr(a[4]), from_xvec(a[5]), from_xvec(a[6]))
+        t = _doc_table(a[2], from_xr(a[3]), from_xr(a[4]), from_xvec(a[5]), from_xvec(a[6]), _fev(a, 7))
         if sum(t) == 0:
             return None
         return "speccont %s %d %d %d %d" % ((a[1],) + t)
@@ -285,7 +326,7 @@ def judge(op, impl_out, spec_out):
         return ({"kind": "exception", "metric": a[1]}, "%s ended in %s" % (op[:200], impl_out))
     if a[0] in ("gencont", "contscore"):
         if spec_out is None:   # no spec reply: either no valid pair, or the driver was not available
-            no_pairs = a[0] == "contscore" and sum(_doc_table(a[2], from_xr(a[3]), from_xr(a[4]), from_xvec(a[5]), from_xvec(a[6]))) == 0
+            no_pairs = a[0] == "contscore" and sum(_doc_table(a[2], from_xr(a[3]), from_xr(a[4]), from_xvec(a[5]), from_xvec(a[6]), _fev(a, 7))) == 0
             if no_pairs and impl_out != "nan":   # (through the tool's own path): NaN, never a number
                 return ({"kind": "empty-table", "metric": a[1]}, "score %s from no valid pair" % impl_out)
             return None
@@ -295,10 +336,12 @@ def judge(op, impl_out, spec_out):
             return ({"kind": "formula", "metric": a[1]},
                     "%s: implementation gives %s, textbook definition gives %s" % (a[1], impl_out, spec_out))
     if a[0] == "abcd":
-        t = _doc_table(a[1], from_xr(a[2]), from_xr(a[3]), from_xvec(a[4]), from_xvec(a[5]))
+        fev = _fev(a, 6)
+        t = _doc_table(a[1], from_xr(a[2]), from_xr(a[3]), from_xvec(a[4]), from_xvec(a[5]), fev)
         want = "none" if sum(t) == 0 else "%d %d %d %d" % t
         if impl_out != want:
-            return ({"kind": "counts"}, "table %s, documented counting gives %s" % (impl_out, want))
+            return ({"kind": "counts"}, "table %s, documented counting%s gives %s"
+                    % (impl_out, "" if fev is None else " (forecast event %s)" % " ".join(a[6:9]), want))
     if a[0] == "genabcd":
         fev = None if a[4] == "-" else (a[4], from_xr(a[5]), from_xr(a[6]))
         t = _doc_table(a[1], from_xr(a[2]), from_xr(a[3]), from_xvec(a[7]), from_xvec(a[8]), fev)
